@@ -106,7 +106,7 @@ def check_formula(pc, goal, timeout_ms, want_model=True, tier="quick"):
     s = z3.Solver()
     s.set("timeout", timeout_ms)
     s.add(*pc)
-    s.add(*ops.AXIOMS.values())
+    s.add(*ops.axioms_for(list(pc) + [goal]))
     s.add(z3.Not(goal) if not isinstance(goal, bool) else z3.BoolVal(not goal))
     r = s.check()
     dt = time.time() - t0
@@ -233,6 +233,8 @@ def verify_contract(con, contracts, tier="quick", externals=None):
     opts["contract"] = con
     if con.yield_shape is not None:
         opts["yield_shape"] = con.yield_shape
+    if con.ghost_asserts:
+        opts["ghost_asserts"] = con.ghost_asserts
     E = Engine(con.mod, con.node, con.clsnode, con.target, con.spec_mod, contracts,
                raises=set(con.raises_nodes), loops=con.loops, bv=con.bv, modular=con.modular,
                externals=dict(externals or {}, **getattr(con.cls, "externals", {})), options=opts)
@@ -284,6 +286,10 @@ def verify_contract(con, contracts, tier="quick", externals=None):
             result = val if kind == "return" else NONE
             if is_gen:
                 result = s_out.yielded
+            rs = con.__dict__.get("result_shape")
+            if isinstance(rs, TSeq) and isinstance(result, (ListV, tuple)):
+                items = result.items if isinstance(result, ListV) else result
+                result = seqs.to_seq(ListV(items), rs.elem) if items else SeqV(0, rs.elem, [z3.K(z3.IntSort(), _dflt(l)) for l in shape_leaves(rs.elem)], rs.kind)
             amap = dict(argmap)
             amap["result"] = result
             for p in names:
@@ -295,6 +301,9 @@ def verify_contract(con, contracts, tier="quick", externals=None):
                 goal = E.eval_spec(en, con, _select(en, amap), s_out)
                 _mk(E, s_out, "post", None, ops._tb(truth(goal)) if not isinstance(goal, bool) else goal, con, "post/" + label, env)
         res.notes = list(E.notes)
+        for text in (con.ghost_asserts or {}):
+            if text not in E._ghost_hits:
+                raise EngineError("ghost assertion anchored on a statement that no longer exists: %r" % text)
         if reach["return"] == 0 and con.ensures_nodes:
             res.notes.append("no normal return path is feasible")
     except EngineError as e:
@@ -328,6 +337,11 @@ def verify_contract(con, contracts, tier="quick", externals=None):
     res.solver_seconds += E.solver_seconds
     res.seconds = time.time() - t0
     return res
+
+
+def _dflt(l):
+    from .values import default_leaf
+    return default_leaf(l)
 
 
 def _select(fnode, amap):
